@@ -131,6 +131,10 @@ class NdContract(Contract):
             return self._squeeze(eng, st, recv)
         if name == "numpy.atleast_1d" and is_nd(a0) and len(args) == 1:
             return a0 if a0.shape else self._derive(a0, shape=(1,), kind="ndarray", prov="ERASED", cell=(lambda i, c=a0.cell: c()) if getattr(a0, "cell", None) else None)
+        if name == "astype" and is_nd(recv) and args:
+            # a cast is NOT the identity on the values (astype(int) truncates, astype(bool) collapses): the result is a different array
+            tgt = args[0] if isinstance(args[0], str) else getattr(args[0], "name", None) or repr(args[0])
+            return self._derive(recv, name=f"{recv.name}.astype({tgt})", cell=None, cast_of=recv)
         if name == "reshape" and is_nd(recv):
             tgt = args[0] if len(args) == 1 else tuple(args)
             if tgt == -1:
